@@ -1,13 +1,50 @@
 """C14 — --take stops reading: jawk terminates on unbounded input when it can."""
-import json
+import json, os, subprocess, threading, time
 import lib, gen, common
 from common import clone_cfg, mkcase, rows
 
-ASSUMPTIONS = ['stdin is delivered by an unbuffered instrumented reader, so bytes pulled are counted exactly; BufReader read-ahead for files is outside the model',
+ASSUMPTIONS = ['stdin is delivered by an unbuffered instrumented reader, so bytes pulled are counted exactly; BufReader read-ahead for files is outside the model: for file arguments the bound is the stdin count plus 2 MiB (pipe capacity + read-ahead)',
                'an unbounded stream is represented by every finite prefix: the endless tail repeats one qualifying value']
 TRUSTED = ['std::io::Bytes pulls one byte per call from an unbuffered reader']
 
 REPS = 60
+NEEDS_BIN = True
+FILE_CAP = 24 * 1024 * 1024        # the writer gives up after this many bytes: the reader is then unbounded
+FILE_SLACK = 2 * 1024 * 1024       # pipe capacity (<= 1 MiB) + BufReader read-ahead + margin
+
+def run_fifo(args, prefix, unit, timeout=40):
+    """the real binary reading a named pipe given as a FILE argument; an endless writer on the other side.
+    Returns (exit status or 'hang', stdout, bytes the writer got rid of before the reader went away)"""
+    d = os.path.join(lib.BUILD, 'tmp', 'fifo%d_%d' % (os.getpid(), threading.get_ident())); os.makedirs(d, exist_ok=True)
+    path = os.path.join(d, 'in.json'); os.mkfifo(path)
+    written = [0]; stop = [False]
+    def writer():
+        try:
+            fd = os.open(path, os.O_WRONLY)
+        except OSError: return
+        try:
+            buf = prefix
+            block = unit * max(1, 65536 // max(1, len(unit)))
+            while not stop[0] and written[0] < FILE_CAP:
+                n = os.write(fd, buf[:65536]); written[0] += n; buf = buf[n:] or block
+        except OSError: pass             # EPIPE: the reader closed the file
+        finally:
+            try: os.close(fd)
+            except OSError: pass
+    p = subprocess.Popen([lib.JAWK_BIN] + args + ['--', path], stdin=subprocess.DEVNULL, stdout=subprocess.PIPE, stderr=subprocess.PIPE)
+    t = threading.Thread(target=writer); t.start()
+    try:
+        so, se = p.communicate(timeout=timeout); rc = p.returncode
+    except subprocess.TimeoutExpired:
+        p.kill(); so, se = p.communicate(); rc = 'hang'
+    stop[0] = True
+    try:                                  # unblock a writer still waiting in open()
+        fd = os.open(path, os.O_RDONLY | os.O_NONBLOCK); os.close(fd)
+    except OSError: pass
+    t.join(5)
+    try: os.unlink(path); os.rmdir(d)
+    except OSError: pass
+    return rc, so, written[0]
 
 def run(ctx):
     rnd = ctx['rnd']; n = 120 if ctx['tier'] == 'quick' else 2000
@@ -48,14 +85,37 @@ def run(ctx):
                 violations.append({'property': 'C14', 'relation': 'bytes read past the value that produced the T-th row are bounded',
                                    'args': lib.cfg_args(c['cfg']), 'stdin_hex': c['inputs'][0]['data'].hex(), 'endless_hex': c['inputs'][0]['endless'].hex(),
                                    'observed': {'pulled': a['pulled']}, 'expected': {'pulled': b['pulled'][0]}})
-    cov = {'evaluations': len(cases), 'distinct_nontrivial': qualifying,
-           'rule': 'streaming pipelines (set/split/filter/select/unique/only-objects) with T in {0,1,2,3,5}, S in {0,1,3}; input = generated prefix + endless repetition of a qualifying record through an instrumented stdin reader with a 200 kB budget; non-trivial = the model predicts the pipeline can emit T rows',
+    # the same through a FILE argument (a named pipe with an endless writer), on the real binary
+    nf = 6 if ctx['tier'] == 'quick' else 40
+    fifo_cases = [c for c in cases if model.get(c['id']) and model[c['id']]['pulled'] and model[c['id']]['pulled'][0] < len(c['inputs'][0]['data']) + len(c['inputs'][0]['model_tail'])
+                  and impl[c['id']]['result'] == 'ok'][:nf]
+    fifo_checked = 0
+    def one(c):
+        return run_fifo(lib.cfg_args(c['cfg']), c['inputs'][0]['data'], c['inputs'][0]['endless'])
+    res = {}
+    ths = [threading.Thread(target=lambda c=c: res.__setitem__(c['id'], one(c))) for c in fifo_cases]
+    for t in ths: t.start()
+    for t in ths: t.join()
+    for c in fifo_cases:
+        rc, so, written = res[c['id']]; a = impl[c['id']]; fifo_checked += 1
+        bound = a['pulled'] + FILE_SLACK
+        if rc == 'hang' or written > bound or rc != 0 or so != a['stdout']:
+            violations.append({'property': 'C14', 'relation': 'file argument: terminates on an unbounded file (named pipe) after T rows with the rows of the stdin run, reading a bounded number of bytes',
+                               'args': lib.cfg_args(c['cfg']), 'stdin_hex': c['inputs'][0]['data'].hex(), 'endless_hex': c['inputs'][0]['endless'].hex(), 'input': 'fifo',
+                               'observed': {'exit': rc, 'bytes_taken_from_the_writer': written, 'stdout_equal_to_stdin_run': so == a['stdout']},
+                               'expected': {'pulled': a['pulled'], 'bytes_taken_from_the_writer_at_most': bound}})
+    cov = {'evaluations': len(cases) + fifo_checked, 'file_argument_runs': fifo_checked, 'distinct_nontrivial': qualifying,
+           'rule': 'streaming pipelines (set/split/filter/select/unique/only-objects) with T in {0,1,2,3,5}, S in {0,1,3}; input = generated prefix + endless repetition of a qualifying record through an instrumented stdin reader with a 200 kB budget, and for a few of them the real binary reading a named pipe given as a file argument from an endless writer; non-trivial = the model predicts the pipeline can emit T rows',
            'samples': [common.describe(c) for c in cases[:2]],
            'traces_validated_against_impl': checked - len(mism), 'model_mismatches': len(mism), 'direct_relations_checked': checked}
     broken = ['correspondence: model and implementation differ on %d cases, e.g. %s' % (len(mism), json.dumps(mism[0])[:1500])] if mism else []
     return {'coverage': cov, 'violations': violations, 'broken': broken}
 
 def replay(ctx, r):
+    if r.get('input') == 'fifo':
+        rc, so, written = run_fifo(r['args'], bytes.fromhex(r['stdin_hex']), bytes.fromhex(r['endless_hex']))
+        return {'observed': {'exit': rc, 'bytes_taken_from_the_writer': written}, 'expected': r['expected'],
+                'fails': rc == 'hang' or rc != 0 or written > r['expected']['bytes_taken_from_the_writer_at_most']}
     c = {'id': 'r', 'cfg': lib.new_cfg(), 'args': r['args'], 'inputs': [{'data': bytes.fromhex(r['stdin_hex']), 'endless': bytes.fromhex(r['endless_hex']), 'budget': 200000}]}
     res = lib.run_harness([c], timeout=60)['r']
     fails = res['result'] in ('hang', 'abort', 'panic') or res['budget_hit'] or res['pulled'] > r['expected']['pulled'] + len(bytes.fromhex(r['endless_hex'])) + 2
